@@ -74,7 +74,7 @@ func genCase(t *rapid.T) Case {
 	for i := 0; i < n; i++ {
 		kind := "retain"
 		if i > 0 {
-			kind = rapid.SampledFrom([]string{"retain", "read", "read", "read-goroutine", "read-conn", "write", "conn-retain", "conn-retain", "conn-read", "conn-read", "retain-odd", "reserialize", "unmarshal", "answer"}).Draw(t, "kind")
+			kind = rapid.SampledFrom([]string{"retain", "read", "read", "read-goroutine", "read-conn", "write", "conn-retain", "conn-retain", "conn-read", "conn-read", "retain-odd", "reserialize", "unmarshal", "answer", "echo", "buf-retain", "buf-read", "buf-read"}).Draw(t, "kind")
 		}
 		var m gen.Msg
 		m.Flags, m.Code, m.App, m.HbH, m.E2E = cat.Header(t)
@@ -195,6 +195,11 @@ func verify(r *retained, after int, what string) *ev.Failure {
 	if r.want == nil {
 		return verifySnapshot(r, after, what)
 	}
+	if r.avps != "" {
+		if s := avpSnapshot(r.m.AVP, 0); s != r.avps {
+			return ev.Failf("retained-message-changed", "message retained at step %d: its AVPs (code, flags, vendor id, Length, value bytes) changed after step %d (%s):\n was %s\n is  %s", r.step, after, what, clipS(r.avps), clipS(s))
+		}
+	}
 	h := r.m.Header
 	if h.Version != 1 || int(h.MessageLength) != len(r.ref) || h.CommandFlags != r.want.Flags || h.CommandCode != r.want.Code ||
 		h.ApplicationID != r.want.App || h.HopByHopID != r.want.HbH || h.EndToEndID != r.want.E2E {
@@ -213,7 +218,15 @@ func verify(r *retained, after int, what string) *ev.Failure {
 	return nil
 }
 
+func clipS(s string) string {
+	if len(s) > 1500 {
+		return s[:1500] + "..."
+	}
+	return s
+}
+
 func runCase(c Case) *ev.Failure {
+	var shared bytes.Buffer // one receive buffer the application reads messages from, again and again
 	p, _, err := c.Dict.Load()
 	if err != nil {
 		return ev.Failf("harness-dict", "%v", err)
@@ -235,9 +248,39 @@ func runCase(c Case) *ev.Failure {
 			if err != nil {
 				return ev.Failf("harness-read", "step %d: reference image rejected: %v", i, err)
 			}
-			r := &retained{step: i, m: m, want: &st.Msg, ref: ref}
+			r := &retained{step: i, m: m, want: &st.Msg, ref: ref, avps: avpSnapshot(m.AVP, 0)}
 			r.str = m.String()
 			kept = append(kept, r)
+		case "buf-retain", "buf-read":
+			// the application collects received bytes in a bytes.Buffer of its own and decodes from it
+			shared.Write(ref)
+			m, err := diam.ReadMessage(&shared, p)
+			if err != nil {
+				return ev.Failf("harness-read", "step %d: reference image rejected: %v", i, err)
+			}
+			if st.Kind == "buf-retain" {
+				if d := gen.CompareTree(st.Msg.AVPs, m.AVP, ""); d != "" {
+					return ev.Failf("harness-read", "step %d: ReadMessage from a bytes.Buffer returned a different message: %s", i, d)
+				}
+				r := &retained{step: i, m: m, want: &st.Msg, ref: ref, avps: avpSnapshot(m.AVP, 0)}
+				r.str = m.String()
+				kept = append(kept, r)
+			}
+		case "echo":
+			// a relay / an answer that carries AVPs of the request: adding an AVP of a kept message
+			// to another message must not write into the kept one
+			for _, r := range kept {
+				a := r.m.Answer(2001)
+				for k, x := range r.m.AVP {
+					if k%2 == 0 {
+						a.AddAVP(x)
+					} else {
+						a.InsertAVP(x)
+					}
+				}
+				var w bytes.Buffer
+				a.WriteTo(&w)
+			}
 		case "read":
 			if _, err := diam.ReadMessage(bytes.NewReader(ref), p); err != nil {
 				return ev.Failf("harness-read", "step %d: reference image rejected: %v", i, err)
@@ -303,7 +346,7 @@ func runCase(c Case) *ev.Failure {
 				return f
 			}
 			if st.Kind == "conn-retain" {
-				r := &retained{step: i, m: m, want: &st.Msg, ref: ref}
+				r := &retained{step: i, m: m, want: &st.Msg, ref: ref, avps: avpSnapshot(m.AVP, 0)}
 				if d := gen.CompareTree(st.Msg.AVPs, m.AVP, ""); d != "" {
 					return ev.Failf("harness-read", "step %d: the connection loop delivered a different message: %s", i, d)
 				}
@@ -398,7 +441,7 @@ func readThroughConn(p *dict.Parser, ref []byte, step int) *ev.Failure {
 
 var prop = ev.Register(&ev.Prop[Case]{
 	ID: "C06", Name: "retained",
-	Rule: "histories of {retain a decoded message, retain a message delivered by a long-lived library-served connection while that connection goes on receiving, read other content on the same goroutine / another goroutine / through a fresh or the same library-served in-memory connection, WriteTo} with messages made of slice-backed types (Address IPv4/IPv6/other, IPv4, IPv6, OctetString, undefined codes, groups of them) on both sides of the 1 KiB pooled buffer; after EVERY step every retained message must still equal the abstract message it was decoded from (tree, re-serialisation, rendering); non-trivial = a retained message with a slice-backed value and body <= 1024 followed by a later read with body <= 1024",
+	Rule: "histories of {retain a decoded message, retain a message delivered by a long-lived library-served connection while that connection goes on receiving, read other content on the same goroutine / another goroutine / through a fresh or the same library-served in-memory connection, read / retain from one bytes.Buffer that the application refills, WriteTo, re-serialise, Unmarshal into a reused struct, Answer, echo the AVPs of a retained message into an answer with AddAVP / InsertAVP, retain a non-canonical wire image} with messages made of slice-backed types (Address IPv4/IPv6/other, IPv4, IPv6, OctetString, undefined codes, groups of them) on both sides of the 1 KiB pooled buffer; after EVERY step every retained message must still equal the abstract message it was decoded from (tree, re-serialisation, rendering, and the snapshot of code / flags / vendor id / Length / value bytes of every AVP taken when it was decoded); non-trivial = a retained message with a slice-backed value and body <= 1024 followed by a later read with body <= 1024",
 	Gen:  genCase, Run: runCase,
 	Classify: func(c Case) (bool, []string) {
 		var cl []string
@@ -411,10 +454,10 @@ var prop = ev.Register(&ev.Prop[Case]{
 				cl = append(cl, "step:"+s.Kind)
 			}
 			small := bodyLen(&s.Msg) <= 1024
-			if s.Kind != "retain" && s.Kind != "conn-retain" && s.Kind != "write" && small && retainedSmall {
+			if s.Kind != "retain" && s.Kind != "conn-retain" && s.Kind != "buf-retain" && s.Kind != "write" && small && retainedSmall {
 				nt = true
 			}
-			if s.Kind == "retain" || s.Kind == "conn-retain" {
+			if s.Kind == "retain" || s.Kind == "conn-retain" || s.Kind == "buf-retain" {
 				if small && retainedSmall {
 					nt = true
 				}
